@@ -28,6 +28,16 @@ GOLEAN_TB = ["the Go-to-Lean translator harness/cmd/gkh/golean.go (go/ast, ~2,50
              "maps and slices; Go `int` is modelled as an unbounded integer (the translated functions only compare)"]
 
 
+CRONCONC_RULE = ("`gkh cronconc` (concurrent variant; monitors in the harness, relayed by the cron driver): on a real CronStore a Pop is "
+                 "parked in the middle of its work — inside Schedule.Next (head removed, successor not pushed yet) or at the "
+                 "clock's Stop call of its re-arm — while a second call tries to run to completion: an EditTask (any subset "
+                 "removed, same-identity twins of removed / kept entries, fresh entries; result must equal one of the two "
+                 "sequential orders, computed by running the same store sequentially on fresh identical worlds: MON C16), a "
+                 "second Pop (the two must hand out what two sequential Pops hand out: MON C15), Schedule / Peek (every "
+                 "registered entry has exactly one pending occurrence at any instant: MON C15), StopTimer (after both "
+                 "returned a stopped store's timer is neither armed nor pending: MON C17); ")
+
+
 def golean_run():
     return {"args": ["golean"]}
 
@@ -198,8 +208,9 @@ CHECKS = {
     },
     "C15": {
         "family": "cron", "level": "proof", "modules": ["Gk.Props.C15"], "components": ["cron"],
-        "runs": lambda tier: [{"args": ["cron", "-n", str({"quick": 400, "thorough": 20000, "widen": 4000}[tier]), "-len", "40"]}],
-        "rule": "real CronStore with a virtual clock; 7 Entry objects per history drawn from 12 colliding expressions "
+        "runs": lambda tier: [{"args": ["cron", "-n", str({"quick": 400, "thorough": 20000, "widen": 4000}[tier]), "-len", "40"]},
+                              {"args": ["cronconc", "-n", str({"quick": 300, "thorough": 6000, "widen": 1500}[tier])], "seed_off": 4}],
+        "rule": CRONCONC_RULE + "real CronStore with a virtual clock; 7 Entry objects per history drawn from 12 colliding expressions "
                 "(5/6-field, @every, @hourly, TZ=, JsonExp), three of them sharing identities; Pop/Peek/EditTask/"
                 "start/stop/advance/consume; robfig's occurrence stream of each parsed schedule is the oracle; "
                 "Schedule(), every entry cursor, the timer and NextScheduled compared with Gk.Cron after every op",
@@ -215,19 +226,15 @@ CHECKS = {
                 "re-offered after rejection; Mon C16 compares Schedule() and all cursors around every rejected edit; "
                 "a C15 monitor (one pending occurrence per stored entry, cursors move to the very next occurrence) "
                 "failing on a history that contains an edit counts for C16 too (an accepted edit must leave every "
-                "added entry at its first occurrence and every kept one untouched); `gkh cronconc`: one Pop and one "
-                "EditTask of a real CronStore race — every entry's Schedule is wrapped so that the Pop is parked inside "
-                "Schedule.Next (after the head left the heap, before its successor is pushed) while the edit (any subset "
-                "removed, same-identity twins of removed / kept entries, fresh entries) tries to complete; the observed "
-                "(popped occurrence, edit verdict, pending schedule) must equal one of the two sequential orders, computed "
-                "by running the same store sequentially on fresh identical worlds (monitor in the harness, relayed)",
+                "added entry at its first occurrence and every kept one untouched); " + CRONCONC_RULE.rstrip("; "),
         "extra_mon": {"C15": r"^edit "},
         "trusted_base": COMMON_TB, "assumptions": ["task ids (random UUIDs) are ignored"],
     },
     "C17": {
         "family": "cron", "level": "proof", "modules": ["Gk.Props.C17"], "components": ["cron"],
-        "runs": lambda tier: [{"args": ["cron", "-n", str({"quick": 400, "thorough": 20000, "widen": 4000}[tier]), "-len", "40"]}],
-        "rule": "same histories as C15; after every op the injected clock (armed deadline, pending fire) and "
+        "runs": lambda tier: [{"args": ["cron", "-n", str({"quick": 400, "thorough": 20000, "widen": 4000}[tier]), "-len", "40"]},
+                              {"args": ["cronconc", "-n", str({"quick": 300, "thorough": 6000, "widen": 1500}[tier])], "seed_off": 4}],
+        "rule": CRONCONC_RULE + "same histories as C15; after every op the injected clock (armed deadline, pending fire) and "
                 "NextScheduled are compared with the model and with the head of Schedule() (Mon C17)",
         "trusted_base": COMMON_TB, "assumptions": HOOK_ASSUME[2:],
     },
@@ -294,7 +301,7 @@ CHECKS = {
         ("C04", "hook-timer configuration: full; Retry of every error state included. Cron configuration: tied to CWorld, formal witnesses of open finding D18 (C04_D18_witness, C04_D18_runs_twice)."),
         ("C05", "PARTIAL: 'a worker is free / the queue is running' are hypotheses discharged by C08/C09's ties. The global progress theorem (C05_progress: bounded number of fair rounds until nothing is left scheduled) is proved for the hook-timer configuration; the cron configuration is tied to its model (CWorld) and monitored, its progress is not proved (and is false under open finding D18)."),
         ("C06", "hook-timer configuration; delivery through eventqueue's goroutines is sampled. The outcome the scheduler records is the one the dispatcher delivers: the real WorkerPoolDispatcher's result table (C09's 224 cells) is run here too, and a wrong delivered result of a work function that ran counts against C06."),
-        ("C20", "PARTIAL: inherits C03's open finding D3i; faults on every scheduler call incl. hook re-arming. Safety for every script; recovery: one fair fault-free Retry round resolves every retryable state and leaves no task dispatched-and-never-started (C20_recovery_eventual), under the driver discipline 'a retryable DispatchErr is answered with Retry' (still needed for a task whose mark took effect: C20_step_over_dispatchErr_now; no longer needed for the timer invariant: C05_liveInv_step). The World automaton places faults at the scheduler / observable-repository boundary; an error AFTER effect one layer below (core repository, timer hook not told) is outside its alphabet and is decided by the exhaustive scenario family `gkh corefault` only (defect D21, found there and fixed by 7173c3b)."),
+        ("C20", "PARTIAL: inherits C03's open finding D3i; faults on every scheduler call incl. hook re-arming. Safety for every script; recovery: one fair fault-free Retry round resolves every retryable state and leaves no task dispatched-and-never-started (C20_recovery_eventual), under the driver discipline 'a retryable DispatchErr is answered with Retry' (still needed for a task whose mark took effect: C20_step_over_dispatchErr_now; no longer needed for the timer invariant: C05_liveInv_step). The World automaton places faults at the scheduler / observable-repository boundary; an error AFTER effect one layer below (core repository, timer hook not told: defect D21, fixed by 7173c3b) is the action SAct.markDispatchedCore - inside the theorems' quantification (LiveInv's third state Obs.Loose + restart pending; C20_core_after_effect_recovers / _unrepaired_strands), injected by the sched family (`ca`) and enumerated exhaustively by `gkh corefault`."),
     )},
     "C10": {
         "family": "lin", "level": "proof", "modules": ["Gk.Props.C10"], "components": ["lin", "srcfacts-lock", "srcfacts-sql", "entproto"],
